@@ -356,9 +356,24 @@ fn biased_pos(rng: &mut Rng, s: &str) -> usize {
 
 /// Apply one storage/transport fault that keeps the text valid UTF-8. Returns the fault kind.
 pub fn text_fault(rng: &mut Rng, s: &mut String) -> &'static str {
-    let kind = rng.below(12);
+    let kind = rng.below(13);
     let lines: Vec<String> = s.split_inclusive('\n').map(|l| l.to_string()).collect();
     match kind {
+        12 if lines.iter().any(|l| l.contains(": ")) => {
+            // a field value replaced by a number, from one digit to far beyond any machine integer
+            let cands: Vec<usize> = (0..lines.len()).filter(|i| lines[*i].contains(": ")).collect();
+            let i = cands[rng.below(cands.len())];
+            let n = *rng.pick(&[1usize, 5, 9, 10, 11, 19, 20, 21, 40]);
+            let mut digits: String = (0..n).map(|k| if k == 0 { (b'1' + rng.below(9) as u8) as char } else { (b'0' + rng.below(10) as u8) as char }).collect();
+            if rng.chance(1, 6) {
+                digits.insert_str(0, rng.s(&["-", "+", "0", "00000000000000000000"]));
+            }
+            let mut v = lines.clone();
+            let name = v[i].split(": ").next().unwrap_or("X").to_string();
+            v[i] = format!("{name}: {digits}{}", if v[i].ends_with('\n') { "\n" } else { "" });
+            *s = v.concat();
+            "digits_value"
+        }
         0 => {
             let p = biased_pos(rng, s);
             s.truncate(p);
